@@ -4,7 +4,7 @@
 # defect of the repository or a false alarm of the machinery and has to be triaged)
 cd "$(dirname "$0")/.."
 factor=$1; shift
-declare -A B=( [C01]=8000 [C03]=2500 [C04]=6000 [C06]=2500 [C08]=3000 [C09]=3000 [C11]=5000 [C16]=2500 [C17]=2500 [C18]=3000 )
+declare -A B=( [C01]=8000 [C03]=4000 [C04]=12000 [C06]=2500 [C08]=6000 [C09]=6000 [C11]=10000 [C16]=2500 [C17]=4000 [C18]=4500 )
 for seed in "$@"; do
   for p in C01 C03 C04 C06 C08 C09 C11 C16 C17 C18; do
     n=$(( ${B[$p]} * factor ))
